@@ -573,3 +573,136 @@ class DirectFlags(Monitor):
                  "after %r: stored %s carries requested columns but is marked non-direct" % (
                      ctx.label, json.dumps(a)[:200]))
     ctx.extra['direct_actions'] = n_direct
+
+
+# ------------------------------------------------------------------------------------------------
+class Triggers(Monitor):
+  """
+  C15: three-valued reference model of *when* a trigger formula recalculates.  Every trigger
+  formula in W_trig is `(value or 0) + 1`, so a cell counts its own recalculations:
+  MUST => post == pre + 1, MUST-NOT => post == pre, explicit value => that value.
+  """
+  name = 'triggers'
+  RECORD = ('AddRecord', 'BulkAddRecord', 'UpdateRecord', 'BulkUpdateRecord', 'RemoveRecord',
+            'BulkRemoveRecord')
+
+  def check(self, ctx):
+    if ctx.exc is not None:
+      return
+    pre, post = ctx.pre_dump, ctx.post_dump
+    if 'T' not in pre or 'T' not in post:
+      return
+    bundle = json.loads(ctx.bundle)
+    kinds = set(a[0] for a in bundle)
+    record_only = all(a[0] in self.RECORD and a[1] == 'T' for a in bundle)
+    schema_only = not any(a[0] in self.RECORD and not a[1].startswith('_grist_') for a in bundle)
+    if not (record_only or schema_only):
+      return
+    cfg = self.config(pre)
+    cfg_post = self.config(post)
+    prer, postr = pre['T']['rows'], post['T']['rows']
+    new_rows = sorted(set(postr) - set(prer))
+    # what the user wrote, per row
+    wrote = {}       # row -> {col: value}
+    adds = []        # list of {col: value} in order of addition
+    if record_only:
+      for a in bundle:
+        if a[0] == 'AddRecord':
+          adds.append(a[3])
+        elif a[0] == 'BulkAddRecord':
+          for i in range(len(a[2])):
+            adds.append({c: v[i] for c, v in a[3].items()})
+        elif a[0] == 'UpdateRecord':
+          wrote.setdefault(a[2], {}).update(a[3])
+        elif a[0] == 'BulkUpdateRecord':
+          for i, r in enumerate(a[2]):
+            wrote.setdefault(r, {}).update({c: v[i] for c, v in a[3].items()})
+    n_checked = 0
+    for tcol, (when, deps, selfdep) in sorted(cfg.items()):
+      if tcol not in cfg_post or cfg_post[tcol] != cfg[tcol] or tcol not in post['T']['cols']:
+        continue      # configuration of this column changed in this bundle: not modelled
+      # new rows
+      if record_only and len(adds) == len(new_rows):
+        for vals, r in zip(adds, new_rows):
+          got = postr[r].get(tcol)
+          if tcol in vals and not selfdep:
+            want, why = vals[tcol], 'explicit value supplied on add must be kept'
+          elif tcol in vals:
+            continue
+          elif when == 1:
+            want, why = 0, 'recalcWhen=NEVER: new record keeps the default'
+          else:
+            want, why = 1, 'new record must get the formula value'
+          n_checked += 1
+          if got != want:
+            yield (vkey('C15', 'new-record', ctx, extra='%s/%s' % (tcol, why.split(':')[0].split(' must')[0])),
+                   "after %r: new row T[%s].%s = %r, expected %r (%s)" % (ctx.label, r, tcol, got, want, why))
+      # existing rows
+      for r in sorted(set(prer) & set(postr)):
+        before, got = prer[r].get(tcol), postr[r].get(tcol)
+        w = wrote.get(r, {})
+        dep_changed = any(prer[r].get(d) != postr[r].get(d) for d in deps if d != tcol)
+        verdict = None
+        if schema_only:
+          verdict, why = 'not', 'schema/metadata change must not trigger recalculation'
+        elif tcol in w:
+          if not selfdep:
+            want = w[tcol]
+            n_checked += 1
+            if got != want:
+              yield (vkey('C15', 'explicit-value-not-kept', ctx, extra=tcol),
+                     "after %r: T[%s].%s = %r but the action set it explicitly to %r" % (
+                         ctx.label, r, tcol, got, want))
+            continue
+          if w[tcol] != before and isinstance(w[tcol], int):
+            n_checked += 1
+            if got != w[tcol] + 1:
+              yield (vkey('C15', 'self-dependent-not-recalculated', ctx, extra=tcol),
+                     "after %r: T[%s].%s = %r, expected %r (explicit %r on a self-dependent column "
+                     "must be recalculated once)" % (ctx.label, r, tcol, got, w[tcol] + 1, w[tcol]))
+          continue
+        elif when == 1:
+          verdict, why = 'not', 'recalcWhen=NEVER'
+        elif when == 2:
+          changed_by_user = any(prer[r].get(c) != postr[r].get(c) for c in w)
+          if changed_by_user:
+            verdict, why = 'must', 'MANUAL_UPDATES and a user update changed the row'
+          elif not w:
+            verdict, why = 'not', 'MANUAL_UPDATES and no user update touched the row'
+        else:
+          # DEFAULT
+          data_inputs = set()
+          for d in deps:
+            data_inputs.add(d)
+            if d == 'c':
+              data_inputs.add('a')      # c = $a + 1 (or + 2)
+          if dep_changed:
+            verdict, why = 'must', 'a recalcDeps cell of the row changed value'
+          elif not (set(w) & data_inputs):
+            verdict, why = 'not', 'no recalcDeps cell of the row was written or recomputed'
+        if verdict is None or not isinstance(before, int):
+          continue
+        n_checked += 1
+        if verdict == 'must' and got != before + 1:
+          yield (vkey('C15', 'missed-recalc', ctx, extra=tcol),
+                 "after %r: T[%s].%s went %r -> %r, expected one recalculation (%s)" % (
+                     ctx.label, r, tcol, before, got, why))
+        if verdict == 'not' and got != before:
+          yield (vkey('C15', 'spurious-recalc', ctx, extra=tcol),
+                 "after %r: T[%s].%s went %r -> %r, expected no recalculation (%s)" % (
+                     ctx.label, r, tcol, before, got, why))
+    ctx.extra['trigger_cells_checked'] = n_checked
+
+  @staticmethod
+  def config(dump):
+    """{trigger col id: (recalcWhen, [dep col ids], self-dependent)} for table T."""
+    tables = dump['_grist_Tables']['rows']
+    tref = next((r for r, t in tables.items() if t['tableId'] == 'T'), None)
+    cols = dump['_grist_Tables_column']['rows']
+    byref = {r: c['colId'] for r, c in cols.items()}
+    out = {}
+    for r, c in cols.items():
+      if c['parentId'] == tref and not unb(c['isFormula']) and c['formula']:
+        deps = as_list(c.get('recalcDeps')) or []
+        out[c['colId']] = (c.get('recalcWhen') or 0, [byref.get(d, '?') for d in deps], r in deps)
+    return out
